@@ -48,6 +48,29 @@ class LruRule(BaseRule):
         st.ts[k] = n + 1
         return True
 
+    def compare(self, it, st, node, a, b):
+        """identity tests against a module-level sentinel (`pop(key, _ABSENT)` ... `if previous is not _ABSENT`): a value taken out
+        of the mapping is never the sentinel, the sentinel is itself"""
+        if len(node.ops) != 1 or not isinstance(node.ops[0], (ast.Is, ast.IsNot)):
+            return None
+        ga = sorted(t for t in a.tags if t.startswith("global:"))
+        gb = sorted(t for t in b.tags if t.startswith("global:"))
+        if ga and gb and ga == gb and a.kind == b.kind == "unk":
+            same = True
+        elif (a.kind == "obj" and gb and b.kind == "unk") or (b.kind == "obj" and ga and a.kind == "unk"):
+            same = False
+        else:
+            return None
+        return same if isinstance(node.ops[0], ast.Is) else not same
+
+    wants_compose = True
+
+    def compose(self, it, st, node, acc):
+        """[*values] / (*values,) / {*values}: a snapshot of the values is still `the values`"""
+        if isinstance(node, (ast.List, ast.Tuple, ast.Set)) and len(acc) == 1 and isinstance(acc[0][0], ast.Starred) and acc[0][1].kind == "obj" and acc[0][1].val == "all-values":
+            return acc[0][1]
+        return None
+
     def _is_cont(self, node):
         return astq.is_self_attr(node, self.cont)
 
@@ -212,7 +235,7 @@ class LruRule(BaseRule):
                 s.log(node, f"REMOVE by popitem(last={s.ts['evict_last']})")
                 return [Out("normal", s, AV("tuple", (UNK, AV("obj", "lru", truth=None, none=None)), truth=True, none=False))]
             if f.attr == "values":
-                return [Out("normal", st, AV("obj", "all-values", truth=None, none=False))]
+                return [Out("normal", st, AV("obj", "all-values", truth=None, none=False, sym="all-values"))]
             if f.attr == "clear":
                 self.seen["remove"] += 1
                 s = st.copy()
@@ -259,10 +282,6 @@ class LruRule(BaseRule):
             s.log(node, f"DISPOSE {label}")
             return [Out("normal", s, const(None)), Out("raise", s.copy(), EXT_TOP)]
         return None
-
-    def compare(self, it, st, node, a, b):
-        return None
-
 
 def run(ctx):
     m = ctx.model
@@ -345,6 +364,8 @@ def run(ctx):
             for lab in set(removed):
                 if lab in reins:
                     continue
+                if lab == "all-values" and o.st.facts.get("all-values", (None, None))[0] is False:
+                    continue  # the snapshot of the values was tested and found empty: nothing was removed on this path
                 # a removed value that is falsy-by-fact (None placeholder) cannot occur: values are pools
                 want = 1 if cb is True else (0 if cb is False else None)
                 got = disposed.count(lab)
